@@ -47,7 +47,7 @@ def cases(tier, seed):
     for c in (LIVE[:8] if tier == "quick" else LIVE):
         for ipadd in (1, 0):
             out.append(dict(id="assembled:%s:ipadd%d" % (c, ipadd), kind="assembled", case=c, ipadd=ipadd, reps=(1 if tier == "quick" else 4)))
-    for c in (LIVE[:4] if tier == "quick" else LIVE[:12]):
+    for c in (LIVE[:4] + ["kundur/kundur_vsc.xlsx"] if tier == "quick" else LIVE[:12]):
         out.append(dict(id="pattern:" + c, kind="pattern", case=c))
     return out
 
@@ -324,6 +324,24 @@ def check_assembled(res, ss, models, tag, rng, max_cols=None):
     residual(ss, models, xy0, n)
 
 
+def check_pattern(res, ss, tag):
+    """The four matrices as they stand occupy exactly the stored template's (I, J) positions."""
+    dae = ss.dae
+    res.count("pattern_updates_checked")
+    for name in ("fx", "fy", "gx", "gy"):
+        M, T = dae.__dict__[name], dae.tpl[name]
+        if M.size != T.size:
+            res.violate("pattern_size", "%s: %s has size %s, template %s" % (tag, name, M.size, T.size))
+            continue
+        pm = set(zip(list(M.I), list(M.J)))
+        pt = set(zip(list(T.I), list(T.J)))
+        if pm != pt:
+            extra = sorted(pm - pt)
+            nz = sum(1 for (i, j) in extra if M[int(i), int(j)] != 0)
+            res.violate("pattern_changed", "%s: pattern of %s differs from the stored template (%d vs %d entries; %d outside the template, "
+                        "%d of them non-zero; e.g. %s)" % (tag, name, len(pm), len(pt), len(extra), nz, sorted(pm ^ pt)[:3]), name=name)
+
+
 def run_assembled(spec, res):
     import os
     from vf import au
@@ -347,14 +365,33 @@ def run_assembled(spec, res):
                 res.count("pf_failed")
                 continue
             check_assembled(res, ss, ss.exist.pflow, tag + " [after PF]", rng)
+            check_pattern(res, ss, tag + " [after PF]")
             ss.TDS.init()
             big = (ss.dae.n + ss.dae.m) > 500
             check_assembled(res, ss, ss.exist.pflow_tds, tag + " [after TDS.init]", rng, max_cols=64 if big else None)
+            check_pattern(res, ss, tag + " [after TDS.init]")
+            # every device of one model taken out of service after its Jacobian has been evaluated in service
+            cand = [mn for mn, md in ss.exist.pflow_tds.items() if md.n > 0 and mn not in ("Bus", "Area", "Slack") and
+                    (len(md.cache.all_vars) > 0) and hasattr(md, "u") and not md.flags.j_num]
+            for mn in (list(rng.choice(cand, size=min(3, len(cand)), replace=False)) if cand else []):
+                mn = str(mn)
+                md = ss.__dict__[mn]
+                u_orig = [float(x) for x in md.u.v]
+                try:
+                    for dev in list(md.idx.v):
+                        md.alter("u", dev, 0)
+                    res.count("whole_model_switched_off")
+                    check_assembled(res, ss, ss.exist.pflow_tds, tag + " [after TDS.init, all %s off]" % mn, rng, max_cols=64 if big else 150)
+                    check_pattern(res, ss, tag + " [all %s off]" % mn)
+                finally:
+                    for dev, uo in zip(list(md.idx.v), u_orig):
+                        md.alter("u", dev, uo)
             # mid-simulation, after the case's own events
             ss.TDS.config.tf = float(rng.choice([0.3, 1.15, 2.05]))
             try:
                 ss.TDS.run()
                 check_assembled(res, ss, ss.exist.pflow_tds, tag + " [t=%.2f]" % float(ss.dae.t), rng, max_cols=64 if big else 150)
+                check_pattern(res, ss, tag + " [t=%.2f]" % float(ss.dae.t))
             except Exception as e:
                 res.note("simulation raised %r" % (e,))
     res.sig = "assembled:%s:%d" % (spec["case"], spec["ipadd"])
